@@ -171,6 +171,10 @@ class OutputBuffer:
 
     def v(self, s: str, write_now: bool = False) -> 'OutputBuffer':
         '''Prints a message if verbose output is enabled.'''
+        # Progress messages are for people; in JSON mode stdout must remain a single JSON document (debug mode still prints them).
+        if self.json and not self.debug:
+            return self
+
         if self.verbose or self.debug:
             self.info(s)
             if write_now:
